@@ -57,7 +57,83 @@ type wireWalker struct {
 	prog     *WireProg
 	side     string
 	renames  map[string]string // local filled from the coder, later stored whole into a path
+	// value-aware zeroing: a local that is a *copy* of a path (x := *p) collects the fields zeroed on it;
+	// they count as zeroed in the preimage only if the copy is stored into the slot that is then encoded
+	copyLocal map[types.Object]bool
+	pendZero  map[types.Object][]string
+	slotZero  map[string][]string // slot key (root object + selectors) -> zeroed paths
 }
+
+func (w *wireWalker) rootIdent(e ast.Expr) (*ast.Ident, string) {
+	sel := ""
+	for {
+		switch x := stripParens(e).(type) {
+		case *ast.SelectorExpr:
+			sel = "." + x.Sel.Name + sel
+			e = x.X
+			continue
+		case *ast.TypeAssertExpr:
+			e = x.X
+			continue
+		case *ast.StarExpr:
+			e = x.X
+			continue
+		case *ast.IndexExpr:
+			sel = "[]" + sel
+			e = x.X
+			continue
+		case *ast.Ident:
+			return x, sel
+		}
+		return nil, ""
+	}
+}
+
+func (w *wireWalker) objOf(id *ast.Ident) types.Object {
+	if o := w.info.Defs[id]; o != nil {
+		return o
+	}
+	return w.info.Uses[id]
+}
+
+func (w *wireWalker) slotKey(e ast.Expr) string {
+	id, sel := w.rootIdent(e)
+	if id == nil {
+		return ""
+	}
+	o := w.objOf(id)
+	if o == nil {
+		return ""
+	}
+	return fmt.Sprintf("%p%s", o, sel)
+}
+
+// noteZero records that path expression e is zeroed.
+func (w *wireWalker) noteZero(e ast.Expr) {
+	if id, _ := w.rootIdent(e); id != nil {
+		if o := w.objOf(id); o != nil && w.copyLocal[o] {
+			w.pendZero[o] = append(w.pendZero[o], w.pathOf(e))
+			return
+		}
+	}
+	w.prog.Zeroed = append(w.prog.Zeroed, w.pathOf(e))
+}
+
+// noteEncoded: the value of e is written to the coder; zeroes stored into that very slot take effect.
+func (w *wireWalker) noteEncoded(e ast.Expr) {
+	if k := w.slotKey(e); k != "" {
+		if zs := w.slotZero[k]; len(zs) > 0 {
+			w.prog.Zeroed = append(w.prog.Zeroed, zs...)
+		}
+	}
+	// a copy local encoded directly
+	if id, _ := w.rootIdent(e); id != nil {
+		if o := w.objOf(id); o != nil && w.copyLocal[o] {
+			w.prog.Zeroed = append(w.prog.Zeroed, w.pendZero[o]...)
+		}
+	}
+}
+
 
 func renameOps(ops []Op, ren map[string]string) {
 	if len(ren) == 0 {
@@ -220,7 +296,7 @@ func bodyTouchesCoder(info *types.Info, body ast.Node) bool {
 
 func extractFunc(p *Program, pkg *packages.Package, fd *ast.FuncDecl, obj *types.Func, side string) *WireProg {
 	wp := &WireProg{Name: funcFullName(obj), Side: side, Fn: obj, Decl: fd, Pkg: pkg, Reads: map[string]bool{}, Writes: map[string]bool{}}
-	w := &wireWalker{p: p, pkg: pkg, info: pkg.TypesInfo, paths: map[types.Object]string{}, closures: map[types.Object]*ast.FuncLit{}, active: map[types.Object]bool{}, prog: wp, side: side}
+	w := &wireWalker{p: p, pkg: pkg, info: pkg.TypesInfo, paths: map[types.Object]string{}, closures: map[types.Object]*ast.FuncLit{}, active: map[types.Object]bool{}, prog: wp, side: side, copyLocal: map[types.Object]bool{}, pendZero: map[types.Object][]string{}, slotZero: map[string][]string{}}
 	sig := obj.Type().(*types.Signature)
 	if r := sig.Recv(); r != nil {
 		t := r.Type()
@@ -495,7 +571,29 @@ func (w *wireWalker) stmt(s ast.Stmt) []Op {
 			for i := range s.Rhs {
 				if isZeroExpr(s.Rhs[i]) {
 					if _, plain := s.Lhs[i].(*ast.Ident); !plain {
-						w.prog.Zeroed = append(w.prog.Zeroed, w.pathOf(s.Lhs[i]))
+						w.noteZero(s.Lhs[i])
+					}
+				}
+				// slot = &copy / slot = copy: the copy's zeroes now live in that slot
+				{
+					r := stripParens(s.Rhs[i])
+					if u, ok := r.(*ast.UnaryExpr); ok && u.Op == token.AND {
+						r = stripParens(u.X)
+					}
+					if rid, ok := r.(*ast.Ident); ok {
+						if ro := w.objOf(rid); ro != nil && w.copyLocal[ro] {
+							if k := w.slotKey(s.Lhs[i]); k != "" {
+								w.slotZero[k] = append(w.slotZero[k], w.pendZero[ro]...)
+							}
+						}
+					}
+				}
+				// x := *p  (a copy of what p points to)
+				if lid, ok := s.Lhs[i].(*ast.Ident); ok && s.Tok == token.DEFINE {
+					if _, isStar := stripParens(s.Rhs[i]).(*ast.StarExpr); isStar {
+						if o := w.info.Defs[lid]; o != nil {
+							w.copyLocal[o] = true
+						}
 					}
 				}
 				// local alias of a path: v := x.F / sp := *res
@@ -1014,7 +1112,7 @@ func (w *wireWalker) noteZeroerCall(c *ast.CallExpr) {
 	}
 	for _, a := range c.Args {
 		if u, ok := stripParens(a).(*ast.UnaryExpr); ok && u.Op == token.AND {
-			w.prog.Zeroed = append(w.prog.Zeroed, w.pathOf(u.X))
+			w.noteZero(u.X)
 		}
 	}
 }
@@ -1120,6 +1218,7 @@ func (w *wireWalker) call(c *ast.CallExpr, lhs string) []Op {
 				rt := w.info.TypeOf(sel.X)
 				if rt != nil {
 					if _, isIface := rt.Underlying().(*types.Interface); isIface {
+						w.noteEncoded(sel.X)
 						return []Op{{Kind: "dyn", Path: w.pathOf(sel.X), Typ: fn.Name(), Pos: c.Pos()}}
 					}
 					std := fn.Name() == "EncodeTo" || fn.Name() == "DecodeFrom"
@@ -1422,6 +1521,7 @@ func (w *wireWalker) hashAllOps(c *ast.CallExpr) []Op {
 			}
 		}
 		if _, isIface := t.Underlying().(*types.Interface); isIface {
+			w.noteEncoded(a)
 			ops = append(ops, Op{Kind: "dyn", Path: w.pathOf(a), Typ: "EncodeTo", Pos: a.Pos()})
 			continue
 		}
